@@ -44,7 +44,7 @@ prep_module() {
 
 # --- per-property configuration: package, race build, test regexes, shards, time limits (seconds)
 conf() {
-  PKG=""; RACE=0; QT='^Test'; TT='^Test'; SHARDS=16; QLIM=900; TLIM=3600; JDISK=0
+  PKG=""; RACE=0; QT='^Test'; TT='^Test'; SHARDS=16; QLIM=900; TLIM=3600; JDISK=0; FUZZ=""; FUZZTIME=120
   case "$1" in
     C01) PKG=c01;;
     C02) PKG=c02;;
@@ -58,12 +58,13 @@ conf() {
     C12) PKG=c12; RACE=1; QLIM=1500;;
     C13) PKG=c13;;
     C14) PKG=c14;;
+    C20) PKG=c20; FUZZ="FuzzAlgebra"; FUZZTIME=180;;
     *) return 1;;
   esac
   QT="${QT}"; return 0
 }
 
-ALL_IDS="C01 C02 C03 C04 C05 C06 C07 C08 C11 C12 C13 C14"
+ALL_IDS="C01 C02 C03 C04 C05 C06 C07 C08 C11 C12 C13 C14 C20"
 
 build_one() { # id -> builds $BIN
   conf "$1" || { echo "check.sh: unknown property $1" >&2; return 2; }
@@ -115,12 +116,49 @@ cmd_check() {
     echo "$rc" > "$work/rc-$i"
     [ "$rc" -gt "$worst" ] && worst=$rc
   done
+  # thorough tier: bounded native fuzz campaign(s); a crasher is a violation, its input the replay
+  local fuzzfail=0
+  if [ "$tier" = thorough ] && [ -n "$FUZZ" ]; then
+    for fz in $FUZZ; do
+      mkdir -p "$work/fuzz-$fz"
+      ( cd "$H/$PKG" && timeout -k 10 $((FUZZTIME+120)) "$BIN" -test.run '^$' -test.fuzz "^$fz\$" -test.fuzztime "${FUZZTIME}s" \
+          -test.fuzzcachedir "$work/fuzzcache" >"$work/fuzz-$fz/log.txt" 2>&1 ); rc=$?
+      echo "$rc" > "$work/fuzz-$fz/rc"
+      if [ "$rc" != 0 ] && grep -q 'Failing input written to' "$work/fuzz-$fz/log.txt"; then
+        fuzzfail=1
+        mkdir -p "$ROOT/replays/$id"
+        find "$H/$PKG/testdata/fuzz/$fz" -type f -newer "$work/build.log" -exec mv {} "$ROOT/replays/$id/" \; 2>/dev/null
+      fi
+    done
+  fi
   local t1; t1=$(date +%s.%N)
   local wall; wall=$(echo "$t1 - $t0" | bc)
   local ev="$ROOT/evidence/$id.json"
   local res
   res=$(python3 "$ROOT/tools/merge_evidence.py" "$id" "$tier" "$SEED" "$work/out" "$ev" "$wall" "$ROOT/known_findings.jsonl")
   echo "$res" | grep '^KNOWN-FINDING' || true
+  if [ "$tier" = thorough ] && [ -n "$FUZZ" ]; then
+    python3 - "$ev" "$work" $FUZZ <<'PY'
+import json,sys,re,os
+ev,work=sys.argv[1],sys.argv[2]
+e=json.load(open(ev)); camp=[]
+for fz in sys.argv[3:]:
+    log=open(os.path.join(work,'fuzz-'+fz,'log.txt')).read()
+    m=re.findall(r'fuzz: elapsed: (\S+), execs: (\d+)[^\n]*?(?:new interesting: (\d+))?', log)
+    execs=int(m[-1][1]) if m else 0
+    ni=re.findall(r'new interesting: (\d+)', log)
+    camp.append({"target":fz,"execs":execs,"new_interesting":int(ni[-1]) if ni else 0,"elapsed":m[-1][0] if m else "0s",
+                 "failed":'Failing input written to' in log})
+    e['coverage']['evaluations']+=execs
+e['coverage']['native_fuzz']=camp
+json.dump(e,open(ev,'w'),indent=1)
+PY
+    if [ "$fuzzfail" = 1 ]; then
+      grep -h -B2 -A12 'Failing input written to\|--- FAIL' "$work"/fuzz-*/log.txt | head -40
+      echo "VIOLATION property=$id replay=$(ls -t "$ROOT/replays/$id/"* | head -1)"
+      exit 1
+    fi
+  fi
 
   # classify process outcomes
   local failed=0 crashed=0 inconcl=0
